@@ -59,4 +59,23 @@ PROPS['C04'] = {
     'assumptions': ['executions start from the pristine post-init image restored by memcpy (validated in DESIGN.md section 2)'],
 }
 
+PROPS['C20'] = {
+    'level': 'fault_enumeration',
+    'technique': 'exhaustive enumeration of self-test corruption sets (empty, singles, pairs, triples, quadruples) through the library callback seam on every init configuration',
+    'level_text': 'Every single self-test entry, every pair, every triple (and every quadruple in the thorough tier) is corrupted through the documented CORRUPT callback on 12 init configurations (7 explicit variants, SSE with both flags off, init_mb_mgr_auto with the 4 flag combinations); the FAIL/PASS callback sets, the pass feature bit, the error code, the announced algorithm list (README families) and emptiness/usability of the manager are checked on every run.',
+    'level_note': 'Trusted: the CORRUPT callback seam is the fault model (input corruption of one KAT); decrypt-direction KATs have no corruption seam (documented in README).',
+    'drivers': [{'name': 'c20', 'src': ['props/c20.c'] + COMMON, 'cfgs': ['std'], 'args': ''}],
+    'assumptions': ['README list of self-tested algorithm families is the documented set'],
+}
+
+PROPS['C15'] = {
+    'level': 'model_checking',
+    'technique': 're-init injected after every prefix of a dirtying history x all 49 ordered variant pairs; lock-step differential against a fresh manager',
+    'level_text': 'For all 49 ordered (old, new) variant pairs a re-initialisation is injected after every call (thorough; quick: every 4th call plus the 4/5/8/9/15-jobs-parked points) of a history that parks up to 15 jobs of unequal lengths in every out-of-order lane manager; after each re-init the manager must report empty and an 8-batch probe (1..17 jobs per lane manager, unequal lengths) must hand back exactly what a freshly allocated manager hands back, job for job.',
+    'level_note': 'Behavioural oracle only (no image comparison, so dead stale bytes do not alarm). Flags are changed through imb_set_pointers_mb_mgr(ptr, flags, 0) when old and new variant need different flags.',
+    'drivers': [{'name': 'c15', 'src': ['props/c15.c'] + ALG, 'cfgs': ['std'], 'args': ''}],
+    'deadline': {'quick': 900, 'thorough': 3000},
+    'assumptions': ['probe of 8 batch sizes x 4 lengths per lane manager is what "all subsequent behaviour" is bounded to'],
+}
+
 NOT_APPLICABLE = {}
